@@ -10,6 +10,7 @@ import (
 	"fmt"
 	"runtime"
 	"sync"
+	"sync/atomic"
 
 	"github.com/aldas/go-modbus-client/server"
 	"verif/ev"
@@ -45,13 +46,55 @@ func mkStream(fs []serverx.Frame) stream {
 	return s
 }
 
+// useSched: set once the assembler has been seen starting goroutines (see receive)
+var useSched int32
+
+type needSched struct{}
+
 func receive(a *server.ModbusTCPAssembler, chunk []byte) (resp []byte, closeConn bool, pan string) {
 	defer func() {
 		if rec := recover(); rec != nil {
+			if _, again := rec.(needSched); again {
+				panic(rec)
+			}
 			pan = fmt.Sprint(rec)
 		}
 	}()
-	resp, closeConn = a.ReceiveRead(context.Background(), chunk, len(chunk))
+	if atomic.LoadInt32(&useSched) == 0 {
+		// fast path: a plain call. Should the assembler start a goroutine of its own (vsched.FreeGo moves), the result of
+		// this evaluation is not trusted: the evaluation is abandoned (needSched) and repeated under the scheduler, which
+		// from then on runs every call of this process
+		g0 := atomic.LoadInt64(&vsched.FreeGo)
+		func() {
+			defer func() {
+				if rec := recover(); rec != nil {
+					pan = fmt.Sprint(rec)
+				}
+			}()
+			resp, closeConn = a.ReceiveRead(context.Background(), chunk, len(chunk))
+		}()
+		if atomic.LoadInt64(&vsched.FreeGo) == g0 {
+			return
+		}
+		atomic.StoreInt32(&useSched, 1)
+		panic(needSched{})
+	}
+	// under the scheduler's default schedule (no deviations): should the assembler start goroutines of its own they run
+	// in a fixed order instead of racing freely (the process level explores their interleavings)
+	out := vsched.Run(vsched.Config{Choose: func(n int, label string) int { return 0 }}, func() {
+		defer func() {
+			if rec := recover(); rec != nil {
+				pan = fmt.Sprint(rec)
+			}
+		}()
+		resp, closeConn = a.ReceiveRead(context.Background(), chunk, len(chunk))
+	})
+	if out.Crash != "" && pan == "" {
+		pan = out.Crash // a panic in a goroutine the assembler started
+	}
+	if out.Deadlock && pan == "" {
+		pan = fmt.Sprintf("deadlock inside ReceiveRead: %v", out.Blocked)
+	}
 	return
 }
 
@@ -304,7 +347,7 @@ func run(tier string, shard, nsh int, res *ev.Result) {
 		if j.cuts < 0 {
 			c.Cuts, c.Chunk = 0, -j.cuts
 		}
-		runStream(mkStream(byName(cat, j.names)), c, res, lc)
+		retryUnderSched(func() { runStream(mkStream(byName(cat, j.names)), c, res, lc) })
 		mu.Lock()
 		tot.execs += lc.execs
 		tot.points += lc.points
@@ -379,4 +422,25 @@ func main() {
 			cov["state_definition"] = "(frames in stream, frames completed, size of the chunk just delivered) tuples observed"
 		},
 	})
+}
+
+// retryUnderSched runs f; if f is abandoned because the assembler turned out to start goroutines (needSched), f is run
+// again - this time, and from now on, every ReceiveRead call goes through the scheduler.
+func retryUnderSched(f func()) {
+	again := false
+	func() {
+		defer func() {
+			if rec := recover(); rec != nil {
+				if _, ok := rec.(needSched); ok {
+					again = true
+					return
+				}
+				panic(rec)
+			}
+		}()
+		f()
+	}()
+	if again {
+		f()
+	}
 }
